@@ -170,7 +170,9 @@ def special_cubic(rng):
 def run_one(kind, inp):
     if kind == "seg":
         return check_case([tuple(p) for p in inp["pts"]], inp["t"], inp["k"], inp["th"], tuple(inp["v"]))
-    return check_path([[tuple(p) for p in s] for s in inp["segs"]], inp.get("hist"))
+    segs = [[tuple(p) for p in s] for s in inp["segs"]]
+    return check_path(segs, inp.get("hist")) or oc.path_stale_check(segs, False, hash(repr(segs)) & 0xFFFFFF, [
+        ("length", lambda g: g.length), ("lengthAtTime(0.4)", lambda g: g.lengthAtTime(0.4))])
 
 
 def search(ctx, budget):
